@@ -205,7 +205,8 @@ def gen_snippet(rng: random.Random, uniq_base: int) -> str:
     if k < 0.6:
         return f"Ramp: {rng.choice([2, 4])}\nMark: i{nu()}"
     if k < 0.7:
-        return f"LongC: {rng.choice([3, 6])}"
+        # a command that outlives the snippet that started it
+        return rng.choice([f"LongC: {rng.choice([3, 6])}", "LongA: 9", "Churn", "Spin", f"Mark: i{nu()}\nLongC: 6"])
     if k < 0.8:
         return f"Wait: 0.3s\nMark: i{nu()}"
     if k < 0.9:
